@@ -176,7 +176,9 @@ def st_pipeline(draw):
             # the same id again with other contents (after the original was ephemeral, deleted or is still there)
             forged = dict(ev, content="y" * draw(st.sampled_from([5, 21, 50])), pubkey=draw(st.sampled_from([ev["pubkey"], E.PKS[1]])))
             evs.append({"forged": forged, "delete_original_first": draw(st.booleans())})
-    return {"backend": draw(st.sampled_from(["kv", "sql"])), "validators": chosen, "cfg": cfg, "events": evs}
+    # per event: None, or the number of seconds the validation job sits in the worker-thread queue before it runs
+    slow = draw(st.lists(st.sampled_from([None, None, None, 2, 10, 1000]), min_size=len(evs), max_size=len(evs)))
+    return {"backend": draw(st.sampled_from(["kv", "sql"])), "validators": chosen, "cfg": cfg, "events": evs, "slow": slow}
 
 
 class Pipelines(Sub):
@@ -202,7 +204,9 @@ class Pipelines(Sub):
             w = rig.conn("10.0.0.9")
             await w.send(["REQ", "w", {"since": 1}])
             seen = set()
-            for ev in case["events"]:
+            vexec = asyncio.get_running_loop().inline_executor
+            for evi, ev in enumerate(case["events"]):
+                delay = (case.get("slow") or [None] * len(case["events"]))[evi]
                 if "forged" in ev:
                     if ev["delete_original_first"]:
                         await rig.storage.delete_event(ev["forged"]["id"])
@@ -226,7 +230,22 @@ class Pipelines(Sub):
                 before = await rig.dump()
                 nw = len(w.out)
                 c = rig.conn("10.0.0.1")
-                fr = [json.loads(x) for x in await c.send(["EVENT", ev])]
+                if delay is None:
+                    fr = [json.loads(x) for x in await c.send(["EVENT", ev])]
+                else:
+                    # the worker threads are busy: the validation job waits while (loop) time passes, then runs
+                    vexec.park = True
+                    n0 = len(c.out)
+                    c.feed(["EVENT", ev])
+                    for _ in range(8):
+                        await asyncio.sleep(0)
+                    asyncio.get_running_loop()._voffset += delay
+                    for _ in range(8):
+                        await asyncio.sleep(0)
+                    vexec.park = False
+                    vexec.release_all()
+                    await rig.settle()
+                    fr = [json.loads(x) for x in c.out[n0:]]
                 await c.disconnect()
                 oks = [f for f in fr if f[0] == "OK"]
                 ok = bool(oks and oks[0][2] is True)
@@ -464,4 +483,90 @@ class Refresh(Sub):
                       sample={"old": old, "new": new, "backend": backend, "boundaries": boundaries[0]})
 
 
-SUBCHECKS = [Bounds(), Pipelines(), Lists(), Refresh()]
+class Workers(Sub):
+    """several worker processes share is_main_process (a multiprocessing.Event) but not the module-level lists"""
+
+    name = "workers"
+    examples = {"quick": 120, "thorough": 960}
+    shards = {"quick": 6, "thorough": 12}
+    rule = ("deployment with 1..4 workers: web.start_mainprocess_tasks is run once per worker in arrival order, each worker "
+            "starting with the empty module-level lists a forked process has while web.is_main_process stays shared; events "
+            "from a listed pubkey, a stranger and a denied pubkey are then submitted to worker w; non-trivial = w is not the "
+            "first worker and an allow or deny list is configured and non-empty")
+
+    def strategy(self, tier):
+        return st.tuples(st.sampled_from(["kv", "sql"]), st.integers(1, 4), st.integers(0, 3),
+                         st.sampled_from(["allow", "deny", "both"]), st.lists(st.sampled_from([1, 2, 3]), min_size=1, max_size=2, unique=True),
+                         ).map(list)
+
+    def run_case(self, case):
+        return H.run(self._run, case)
+
+    async def _run(self, case):
+        import time as _t
+
+        from nostr_relay import dynamic_lists, web
+        from nostr_relay.util import Periodic
+
+        backend, n_workers, w, mode, listed = case
+        w = min(w, n_workers - 1)
+        viol = []
+        dl = {}
+        if mode in ("allow", "both"):
+            dl["allow_list_queries"] = [{"kinds": [3], "authors": [E.PKS[0]]}]
+        if mode in ("deny", "both"):
+            dl["deny_list_queries"] = [{"kinds": [1984], "authors": [E.PKS[0]]}]
+        cfg = {"dynamic_lists": dl}
+        dynamic_lists.ALLOWED_PUBKEYS.clear()
+        dynamic_lists.DENIED_PUBKEYS.clear()
+        web.is_main_process.clear()
+        try:
+            async with H.Rig(backend, validators=["nostr_relay.validators.is_signed", "nostr_relay.dynamic_lists.is_pubkey_allowed"],
+                             config=cfg) as rig:
+                # the list events are published while nothing is enforced yet
+                await rig.add(E.make(0, 3, E.T0, [["p", E.PKS[0]]] + [["p", E.PKS[k]] for k in listed], ""))
+                await rig.add(E.make(0, 1984, E.T0, [["p", E.PKS[4]]], ""))
+                for worker in range(w + 1):
+                    # a forked worker: its own copy of the module globals (empty), the shared Event
+                    dynamic_lists.ALLOWED_PUBKEYS.clear()
+                    dynamic_lists.DENIED_PUBKEYS.clear()
+                    before = set(Periodic._running_tasks)
+                    await web.start_mainprocess_tasks(rig.storage)
+                    mine = [t for t in Periodic._running_tasks if t not in before]
+                    t0 = _t.monotonic()
+                    while _t.monotonic() - t0 < 20:
+                        await asyncio.sleep(0)
+                        chains = [H._chain(t) for t in mine if not t.done()]
+                        if all(ch and ch[-1][0] == "sleep" for ch in chains):
+                            break
+                        if backend == "sql":
+                            _t.sleep(0.0005)
+                    else:
+                        raise H.HarnessError("list builder did not finish its first run")
+                allow = {b.hex() for b in dynamic_lists.ALLOWED_PUBKEYS}
+                deny = {b.hex() for b in dynamic_lists.DENIED_PUBKEYS}
+                c = rig.conn("10.0.0.1")
+                want_allow = {E.PKS[0]} | {E.PKS[k] for k in listed} if "allow_list_queries" in dl else None
+                want_deny = {E.PKS[4]} if "deny_list_queries" in dl else None
+                for k in (listed[0], 5, 4):
+                    ev = E.make(k, 1, E.T0 + 10 + k, [], "from %d via worker %d" % (k, w))
+                    fr = [json.loads(x) for x in await c.send(["EVENT", ev])]
+                    oks = [f for f in fr if f[0] == "OK"]
+                    ok = bool(oks and oks[0][2] is True)
+                    should = not ((want_allow is not None and E.PKS[k] not in want_allow) or (want_deny is not None and E.PKS[k] in want_deny))
+                    if ok != should:
+                        viol.append(V("dynamic-list-not-enforced-in-worker:%s" % ("wrongly-accepted" if ok else "wrongly-rejected"),
+                                      "every worker enforces the configured dynamic lists", worker=w, workers=n_workers, mode=mode,
+                                      submitter=k, allow_size=len(allow), deny_size=len(deny)))
+                        break
+                await c.disconnect()
+        finally:
+            Periodic.cancel_running()
+            dynamic_lists.ALLOWED_PUBKEYS.clear()
+            dynamic_lists.DENIED_PUBKEYS.clear()
+            web.is_main_process.clear()
+        return Result(viol, w > 0, ["backend:" + backend, "worker:%d" % w, "mode:" + mode])
+
+
+
+SUBCHECKS = [Bounds(), Pipelines(), Lists(), Refresh(), Workers()]
